@@ -12,6 +12,13 @@ import c19_ddl as D  # noqa: E402  (pure Python, no autofit import)
 
 STEPS_PY = "autofit/database/migration/steps.py"
 GEN = os.path.join(common.COQ, "C19", "Gen.v")
+# PINNED history (committed, never regenerated; see its "comment"): released step texts and ids, the schema
+# before the first step, the schema of the historical test database (copy: corpus/C19/historical_database.sqlite)
+PIN_PATH = os.path.join(common.VERIF, "corpus", "C19", "pinned_history.json")
+
+
+def load_pin():
+    return json.load(open(PIN_PATH))
 
 
 # ---------------------------------------------------------------------------
@@ -149,10 +156,19 @@ def gen_text(raw_steps, line, meta, variant=(False, False, False)):
             if name != name.lower() or '"' in name:
                 raise TranslationError("ORM identifier %r is not lower case (SQLite compares case-insensitively)" % name)
     orm = sorted(meta["orm"])
-    base = D.reverse_steps({t: c for t, c in orm}, parsed)
-    base = [[t, base[t]] for t, _ in orm if t in base]
+    # historical schemas are PINNED, not derived from the current mappers: a mapper column added without a
+    # migration step is then a gap (broken proof + failing opens), not part of "the original schema"
+    pin = load_pin()
+    base = [[t, list(c)] for t, c in pin["base_schema"]]
+    art_schema = [[t, list(c)] for t, c in pin["artifact_schema"]]
     art = meta.get("artifact")
-    art_schema = sorted(art["schema"]) if art else []
+    if not art or sorted(art["schema"]) != sorted(art_schema):
+        raise TranslationError("corpus/C19/historical_database.sqlite does not have the pinned schema")
+    for t, cols in base + art_schema:
+        for name in [t] + list(cols):
+            if name != name.lower():
+                raise TranslationError("pinned identifier %r is not lower case" % name)
+    pinned_ids = list(pin["revision_ids"])
     def gaps_of(start):
         cur = {t: list(c) for t, c in start}
         for st in parsed:
@@ -160,17 +176,18 @@ def gen_text(raw_steps, line, meta, variant=(False, False, False)):
                 D.apply_stmt(cur, x)
         return [(t, c) for t, cols in orm for c in cols if t not in cur or c not in cur[t]]
     orm_gaps = gaps_of(base)
-    art_gaps = gaps_of(art_schema) if art_schema else []
+    art_gaps = gaps_of(art_schema)
     upto = exact_upto(parsed, base)
     c_gaps = lambda g: clist(["(%s, %s)" % (cstr(t), cstr(c)) for t, c in g])
-    digest = hashlib.sha1(json.dumps([raw_steps, orm, art_schema, list(variant)], sort_keys=True).encode()).hexdigest()
+    digest = hashlib.sha1(json.dumps([raw_steps, orm, base, art_schema, pinned_ids, list(variant)], sort_keys=True).encode()).hexdigest()
     lines = [
         "(* GENERATED by harness/vcheck/c19.py on every run -- do not edit.",
         "   steps      : literal `steps = [Step(...), ...]` of %s (line %d), each statement with its parse" % (STEPS_PY, line),
         "   md5_table  : hashlib.md5 of the joined statements of every step and of the joined ids of every prefix",
         "   orm_schema : tables / columns of autofit.database Base.metadata (what the current mappers read and write)",
-        "   base_schema: orm_schema with the effect of every step undone (schema before the first step)",
-        "   artifact_schema: schema of test_autofit/database/migration/database.sqlite (a historical file), [] if absent *)",
+        "   base_schema: PINNED schema before the first step (corpus/C19/pinned_history.json)",
+        "   artifact_schema: PINNED schema of the repository's historical test database (copy in corpus/C19)",
+        "   pinned_revision_ids: PINNED ids of the released revisions 1..%d (what released versions stamped files with) *)" % len(pinned_ids),
         "From Coq Require Import List String.",
         "From PAFC19 Require Import Syntax.",
         "Import ListNotations.",
@@ -185,6 +202,8 @@ def gen_text(raw_steps, line, meta, variant=(False, False, False)):
         "Definition base_schema : schema :=\n  %s." % c_schema(base),
         "",
         "Definition artifact_schema : schema :=\n  %s." % c_schema(art_schema),
+        "",
+        "Definition pinned_revision_ids : list string :=\n  %s." % clist([cstr(x) for x in pinned_ids]),
         "",
         "(* mapper columns that base_schema / artifact_schema + all steps do NOT provide (computed by the reference",
         "   semantics of the harness; Proofs3.v proves each listed gap real and the rest of the ORM covered) *)",
@@ -209,6 +228,7 @@ def gen_text(raw_steps, line, meta, variant=(False, False, False)):
     info["artifact_gaps"] = {"source": json.dumps(art_gaps), "line": 0}
     info["exact_upto"] = {"source": str(upto), "line": 0}
     info["code_variant"] = {"source": "commit=%s insert=%s stamp_new=%s" % tuple(variant), "line": 0}
+    info["pinned_revision_ids"] = {"source": json.dumps(pinned_ids), "line": 0}
     info["_gaps"] = {"orm": ["%s.%s" % g for g in orm_gaps], "artifact": ["%s.%s" % g for g in art_gaps]}
     return "\n".join(lines), info, parsed, orm, base, art_schema, upto
 
@@ -240,7 +260,8 @@ def regenerate(repo=None, meta=None):
 
 OPS_CHOICES = [([], 30), (["commit"], 14), (["write", "commit"], 22), (["write"], 10), (["commit", "write"], 6),
                (["write", "write", "commit"], 6), (["write", "commit", "write"], 6), (["commit", "commit"], 3),
-               (["write", "commit", "write", "commit"], 3)]
+               (["write", "commit", "write", "commit"], 3), (["rollback"], 4), (["write", "rollback"], 4),
+               (["write", "rollback", "commit"], 3), (["write", "commit", "write", "rollback"], 3), (["rollback", "write", "commit"], 3)]
 
 
 def pick_ops(rng):
@@ -260,6 +281,16 @@ def gen_sessions(rng, lo=1, hi=4, first=None):
         ops = first if (i == 0 and first is not None) else pick_ops(rng)
         out.append({"via": rng.choice(["open_database", "aggregator"]), "ops": list(ops)})
     return out
+
+
+def with_url(rng, sessions, p=0.5):
+    """Open (some of) the sessions through the URL branch of open_database ("sqlite:////abs/file.db")."""
+    for s_ in sessions:
+        if rng.random() < p:
+            s_["via"] = "url"
+    if not any(s_["via"] == "url" for s_ in sessions):
+        sessions[0]["via"] = "url"
+    return sessions
 
 
 def gen_history_cases(ctx, n, has_artifact):
@@ -287,6 +318,17 @@ def gen_history_cases(ctx, n, has_artifact):
                 for first in ([], ["commit"]):
                     cases.append(mk("artifact", k, rev, gen_sessions(rng, 2, 3, first=first),
                                     features=(rev == "notable" or thorough)))
+    # the URL branch of open_database (no ".sqlite" suffix: exists is assumed, no directory / prefix handling)
+    for k in ([0, 3, 7, n - 1, n] if not thorough else range(n + 1)):
+        for rev in ["notable"] + (["stamp:%d" % k] if k >= 1 else ["empty"]):
+            cases.append(mk("derived", k, rev, with_url(rng, gen_sessions(rng, 2, 3, first=rng.choice([[], ["commit"]]))), features=False))
+    # an existing zero-byte file (a valid empty SQLite database; outside the property: correspondence only)
+    def no_writes(sessions):
+        for s_ in sessions:
+            s_["ops"] = [o for o in s_["ops"] if o != "write"]
+        return sessions
+    cases.append(mk("derived", 0, "notable", no_writes(gen_sessions(rng, 2, 3)), nfits=0, start="emptyfile", features=False))
+    cases.append(mk("derived", 0, "notable", with_url(rng, no_writes(gen_sessions(rng, 1, 2))), nfits=0, start="emptyfile", features=False))
     # files created by the current code (create_all), then reopened
     for first in ([], ["commit"], ["write", "commit"], ["write"]):
         cases.append(mk("derived", n, "notable", gen_sessions(rng, 2, 4, first=first), nfits=0, start="fresh", features=True))
@@ -311,7 +353,11 @@ def gen_history_cases(ctx, n, has_artifact):
             cases.append(mk("derived", n, "notable", gen_sessions(rng, 1, 4), nfits=0, start="fresh",
                             features=rng.random() < 0.3))
         else:
-            cases.append(mk(base, k, rev, gen_sessions(rng, 1, 4), features=rng.random() < (0.5 if thorough else 0.15)))
+            sess = gen_sessions(rng, 1, 4)
+            if rng.random() < 0.15:
+                cases.append(mk(base, k, rev, with_url(rng, sess), features=False))
+            else:
+                cases.append(mk(base, k, rev, sess, features=rng.random() < (0.5 if thorough else 0.15)))
     return cases
 
 
@@ -418,43 +464,42 @@ def covers(schema, need):
 def valid_start(c):
     if c["start"] == "fresh":
         return True
+    if c["start"] == "emptyfile":
+        return False
     rev = c["rev"]
     return rev in ("notable", "empty") or rev == "stamp:%d" % c["k"]
 
 
 def case_labels(c, n, upto=None):
-    """Labels computed from the abstract case only (upto: static fact about the step list, see exact_upto)."""
+    """Labels computed from the abstract case only (upto: static fact about the step list, see exact_upto).
+    The only recorded finding left: a file WITHOUT stamp whose schema is at or past the rename step."""
     upto = n if upto is None else upto
     lab = set()
-    if c["kind"] != "history":
-        return lab
-    fresh = c["start"] == "fresh"
-    if not fresh:
-        lab.add("named_instance-table-created-by-step")
-        if c["base"] == "artifact":
-            lab.add("artifact-file")
-    if fresh or (c["k"] >= upto and c["rev"] in ("notable", "empty")):
+    if c["kind"] == "history" and c["start"] == "file" and c["k"] >= upto and c["rev"] in ("notable", "empty"):
         lab.add("unstamped-past-rename")
-    if not fresh and c["rev"] == "empty":
-        lab.add("empty-revision-table")
-    # first session that has to migrate (for a fresh file: the first reopen)
-    sess = c["sessions"][1:] if fresh else c["sessions"]
-    current = (not fresh) and c["rev"] == "stamp:%d" % n
-    if not current and sess and "commit" not in sess[0]["ops"]:
-        lab.add("first-migrating-session-without-commit")
     return lab
 
 
-KNOWN_MISSING_MIGRATED = {"named_instance.instance_id"}
-KNOWN_MISSING_ARTIFACT = {"named_instance.instance_id", "dict.*", "compound.*", "dict.id", "compound.id", "compound.compound_type"}
+def predicted_effect(parsed, schema):
+    """Reference semantics (c19_ddl.apply_stmt): which statements take effect when every step is run on `schema`."""
+    cur = {t: list(cols) for t, cols in schema}
+    return [(i, j) for i, st in enumerate(parsed) for j, x in enumerate(st) if D.apply_stmt(cur, x)]
+
+
+def norm_feature(v):
+    return v if not v.startswith("exc:") else ":".join(v.split(":")[:2])
+
+
+def is_schema_error(v):
+    return v.startswith("exc:OperationalError") or "no such column" in v or "no such table" in v
 
 
 def oracle_history(c, r, env):
-    """Returns a list of (message, classes).  env: raw steps, orm, latest id (all computed without the code's
-    migrator: md5 via hashlib on the literal step strings)."""
+    """Returns (failures, notes): failures = list of (message, classes).  env: raw steps, orm, latest id (computed
+    without the code's migrator: md5 via hashlib on the literal step strings)."""
     steps, orm, latest = env["raw"], env["orm"], env["latest"]
     n = len(steps)
-    out = []
+    out, notes = [], []
     labels = case_labels(c, n, env.get("exact_upto"))
     fresh = c["start"] == "fresh"
     valid = valid_start(c)
@@ -463,6 +508,7 @@ def oracle_history(c, r, env):
     disk = r["initial"]
     migrated_once = False       # a session has already had to migrate
     stamped_before = (not fresh) and disk["rev"] == [latest]
+    sr_of = lambda o: (o["schema"], o["rev"])
     for si, (s, sc) in enumerate(zip(r["sessions"], c["sessions"])):
         tr = s["trace"]
         step_ev = [(e[1], e[2], e[3]) for e in tr if e[0] == "step"]
@@ -474,17 +520,28 @@ def oracle_history(c, r, env):
                 out.append(("session %d: database stamped current, yet the open executed %s %s" % (si, step_ev[:3], side), []))
             if s["after_open"] != disk:
                 out.append(("session %d: open of a stamped-current database changed it" % si, []))
-        # (e) rows survive the open; committed writes persist, uncommitted ones do not
-        if not creating and s["after_open"]["nfit"] != disk["nfit"]:
-            out.append(("session %d: %s fit rows before the open, %s after" % (si, disk["nfit"], s["after_open"]["nfit"]), []))
-        ops = sc["ops"]
-        committed = 0
-        if "commit" in ops:
-            last = len(ops) - 1 - ops[::-1].index("commit")
-            committed = ops[:last].count("write")
+        # (e) rows survive the open (every table); committed writes persist, uncommitted / rolled back ones do not
+        if not creating:
+            for t, cnt in disk["rows"].items():
+                if s["after_open"]["rows"].get(t) != cnt:
+                    out.append(("session %d: table %s had %s rows before the open, %s after" % (si, t, cnt, s["after_open"]["rows"].get(t)), []))
+        pending = committed = 0
+        for op in sc["ops"]:
+            if op == "write":
+                pending += 1
+            elif op == "commit":
+                committed, pending = committed + pending, 0
+            else:
+                pending = 0
         before = 0 if creating else disk["nfit"]
-        if s["after_close"]["nfit"] != before + committed:
+        if c["start"] != "emptyfile" and s["after_close"]["nfit"] != before + committed:
             out.append(("session %d: %d committed writes on %d rows left %s rows" % (si, committed, before, s["after_close"]["nfit"]), []))
+        if valid and creating:
+            # a file made by open_database is at the current revision from the start
+            miss = covers(s["after_close"]["schema"], orm)
+            if miss or s["after_close"]["rev"] != [latest]:
+                out.append(("session 0: new file: revision %r (current %s), mapper columns missing: %s" % (s["after_close"]["rev"], latest, miss), []))
+            stamped_before = True
         if valid and not creating:
             first_migration = not migrated_once and not stamped_before
             if first_migration:
@@ -492,49 +549,48 @@ def oracle_history(c, r, env):
                 # (a) reaches the current schema and revision inside the session
                 miss = covers(s["after_open"]["schema"], orm)
                 if miss:
-                    cl = []
-                    if "artifact-file" in labels and set(miss) <= KNOWN_MISSING_ARTIFACT:
-                        cl = ["artifact-file"] if set(miss) - KNOWN_MISSING_MIGRATED else ["named_instance-table-created-by-step"]
-                    elif "named_instance-table-created-by-step" in labels and set(miss) <= KNOWN_MISSING_MIGRATED:
-                        cl = ["named_instance-table-created-by-step"]
-                    out.append(("session %d: after migration the mappers' %s missing" % (si, ", ".join(miss)), cl))
+                    out.append(("session %d: after migration the mappers' %s missing" % (si, ", ".join(miss)), []))
                 if s["after_open"]["rev"] != [latest]:
-                    cl = ["empty-revision-table"] if "empty-revision-table" in labels else []
-                    out.append(("session %d: revision inside the migrating session is %r, not the current %s" % (si, s["after_open"]["rev"], latest), cl))
+                    out.append(("session %d: revision inside the migrating session is %r, not the current %s" % (si, s["after_open"]["rev"], latest), []))
                 # (b) exactly the missing steps, each once, in order
                 succ = [(i, j) for i, j, ok in step_ev if ok]
                 if succ != missing_stmts:
-                    cl = ["unstamped-past-rename"] if "unstamped-past-rename" in labels else []
+                    # the recorded finding explains exactly one outcome: the one the reference semantics predicts
+                    cl = []
+                    if "unstamped-past-rename" in labels and env.get("parsed") and succ == predicted_effect(env["parsed"], r["initial"]["schema"]):
+                        cl = ["unstamped-past-rename"]
                     out.append(("session %d: statements that took effect %s, missing steps are %s" % (si, succ, missing_stmts), cl))
                 if c["rev"].startswith("stamp:") and not fresh and [(i, j) for i, j, _ in step_ev] != missing_stmts:
                     out.append(("session %d: stamped revision %d, attempted %s" % (si, k, [(i, j) for i, j, _ in step_ev]), []))
             else:
                 # (c) fixed point after the first open: nothing more is executed, nothing changes
-                cl = [x for x in ("first-migrating-session-without-commit", "empty-revision-table") if x in labels]
                 if step_ev:
-                    out.append(("session %d: steps executed again on a later open: %s" % (si, [(i, j) for i, j, _ in step_ev][:4]), cl[:1]))
-                if {k_: v for k_, v in s["after_open"].items() if k_ != "nfit"} != {k_: v for k_, v in disk.items() if k_ != "nfit"}:
-                    out.append(("session %d: a later open changed schema / revision" % si, cl[:1]))
-            # the stamp is stored once the migrating session is over
+                    out.append(("session %d: steps executed again on a later open: %s" % (si, [(i, j) for i, j, _ in step_ev][:4]), []))
+                if sr_of(s["after_open"]) != sr_of(disk):
+                    out.append(("session %d: a later open changed schema / revision" % si, []))
+            # the stamp and the migrated schema are stored once the migrating session is over, commit or no commit
             if s["after_close"]["rev"] != [latest]:
-                cl = [x for x in ("first-migrating-session-without-commit", "empty-revision-table") if x in labels]
-                out.append(("session %d: after the session the file's revision is %r, not %s" % (si, s["after_close"]["rev"], latest), cl[:1]))
+                out.append(("session %d: after the session the file's revision is %r, not %s" % (si, s["after_close"]["rev"], latest), []))
+            miss = covers(s["after_close"]["schema"], orm)
+            if miss:
+                out.append(("session %d: after the session the file lacks the mappers' %s" % (si, ", ".join(miss)), []))
         disk = s["after_close"]
     f = r.get("features")
     if f and valid:
+        base = env.get("features_baseline") or {"write": {}, "read": {}}
         for phase in ("write", "read"):
             for name, v in f[phase].items():
                 if v == "ok":
                     continue
-                cl = []
-                if name == "named_instance" and "named_instance-table-created-by-step" in labels and "instance_id" in v + f["write"][name]:
-                    cl = ["named_instance-table-created-by-step"]
-                if name in ("samples", "latent_samples") and "artifact-file" in labels and "dict" in f["write"][name]:
-                    cl = ["artifact-file"]
-                out.append(("feature %s (%s) on the migrated database: %s" % (name, phase, v), cl))
-        if f["old_fits"] != env["expected_old"][str(c["nfits"])]:
-            out.append(("fits stored before the migration do not read back: %s" % json.dumps(f["old_fits"])[:300], []))
-    return out
+                b = base[phase].get(name, "ok")
+                if is_schema_error(v) or norm_feature(v) != norm_feature(b):
+                    out.append(("feature %s (%s) on the migrated database: %s (on a database made by create_all: %s)" % (name, phase, v, b), []))
+                else:
+                    notes.append("feature %s (%s) fails in the same way on a database made by create_all: %s" % (name, phase, norm_feature(v)))
+    old = r.get("old_fits", f["old_fits"] if f else None)
+    if old is not None and valid and old != env["expected_old"][str(c["nfits"])]:
+        out.append(("fits stored before the migration do not read back: %s" % json.dumps(old)[:300], []))
+    return out, notes
 
 
 def oracle_get_steps(c, r, raw_steps):
@@ -564,7 +620,7 @@ def c_ev(e, real=True):
 
 
 def c_ops(ops):
-    return clist(["OpCommit" if o == "commit" else "OpWrite" for o in ops])
+    return clist([{"commit": "OpCommit", "write": "OpWrite", "rollback": "OpRollback"}[o] for o in ops])
 
 
 def c_seen(sessions, prev, real=True):
@@ -622,7 +678,7 @@ def nontrivial(c, n):
 
 def kind_of(c):
     if c["kind"] == "history":
-        return "history:" + ("fresh" if c["start"] == "fresh" else c["base"])
+        return "history:" + (c["start"] if c["start"] != "file" else c["base"])
     if c["kind"] == "get_steps":
         return "get_steps:" + ("real" if c["steps"] is None else "toy")
     return c["kind"]
@@ -639,24 +695,34 @@ def chunk(lst, n):
 
 
 def run(ctx):
-    ctx.rule = ("cases: (history) a real SQLite file at schema revision k (base schema + first k steps, built with raw sqlite3) in a "
-                "revision-table state (none / empty / NULL row / stamped k / mismatched or unknown stamp) or a file created by "
-                "create_all, opened 1-4 times through open_database / Aggregator.from_database with commit / write operations; "
-                "(toy) random step lists over the three DDL forms run through Migrator.migrate on toy files; (get_steps) real and "
-                "toy step lists incl. duplicates. Non-trivial: history with >= 2 sessions on a file not stamped current; toy with "
-                ">= 2 steps; get_steps with a revision id. distinct = distinct abstract input")
+    ctx.rule = ("cases: (history) a real SQLite file at schema revision k -- the PINNED original schema or the PINNED copy of the "
+                "repository's historical database + the first k RELEASED steps, built with raw sqlite3 -- in a revision-table state "
+                "(none / empty / NULL row / stamped with the PINNED id of revision k / mismatched or unknown stamp), or a zero-byte "
+                "file, or no file (create_all); opened 1-4 times through open_database (absolute name, name relative to the output "
+                "path, or a sqlite:/// URL = the non-.sqlite branch) / Aggregator.from_database with commit / write / rollback "
+                "operations; (toy) random step lists over the three DDL forms run through Migrator.migrate on toy files; (get_steps) "
+                "real and toy step lists incl. duplicates. Non-trivial: history with >= 2 sessions on a file not stamped current; toy "
+                "with >= 2 steps; get_steps with a revision id. distinct = distinct abstract input")
     ctx.trusted = [
         "Coq 8.16.1 kernel incl. vm_compute",
         "translator in harness/vcheck/c19.py + harness/impl/c19_ddl.py: literal step list of steps.py (AST) parsed by a fail-closed "
-        "parser for the three DDL forms; Base.metadata read at run time; hashlib.md5 as a finite table (md5 is a Section variable in the proofs)",
+        "parser for the three DDL forms; Base.metadata read at run time; hashlib.md5 as a finite table (md5 is a Section variable in "
+        "the proofs); a syntactic reading of which repairs the code contains (code_variant)",
+        "corpus/C19/pinned_history.json + historical_database.sqlite: the pinned history (released step texts and ids, original schema, "
+        "historical file) -- committed data, never regenerated",
         "correspondence harness c19.py / impl/c19_impl.py (raw sqlite3 observations, SQLAlchemy engine events for the statement trace)",
         "modelled, covered by correspondence only: SQLite's evaluation of the three DDL forms (failing statement = no-op), pysqlite "
-        "legacy transaction control (DML opens a transaction, DDL does not), SQLAlchemy Session.commit / close (= rollback)",
+        "legacy transaction control (DML opens a transaction, DDL does not), SQLAlchemy Session.commit / rollback / close (= rollback)",
     ]
     ctx.assumptions = [
-        "one connection at a time (no concurrent writers); identifiers lower case; md5 injective on the finitely many joined strings "
-        "(checked for the generated steps by vm_compute)",
-        "C19_reaches_* are statements about the generated step list, ORM schema and the derived base schema (finite family: every prefix)",
+        "sessions are sequential: one connection at a time, a session is closed before the next open (no concurrent writers, no "
+        "second open while a session is alive); identifiers lower case; md5 injective on the finitely many joined strings (checked "
+        "for the generated steps by vm_compute); a revision table with more than one row is outside the model (reported, never generated)",
+        "C19_reaches_* / C19_code_* are statements about the generated step list and mappers against the PINNED historical schemas "
+        "(finite family: every prefix); a behaviour-preserving reordering inside migrate changes the statement trace and is reported "
+        "as a correspondence disagreement without failing input",
+        "feature oracle is differential: a storage feature must behave on a migrated database as it does on one made by create_all "
+        "in the same run, and never raise a schema error",
     ]
     import time
     t0 = time.time()
@@ -667,17 +733,23 @@ def run(ctx):
         env = regenerate()
         ctx.translated = env["info"]
         ctx.obligation("translator:Gen.v", "translator", True, "%d steps, %d ORM tables" % (len(env["raw"]), len(env["orm"])))
-        # the generated gap lists make C19_reaches_orm_partial provable whatever the steps are: gaps beyond the
-        # recorded findings are a broken obligation (the oracle then looks for the concrete failing open)
         known_k = len(env["parsed"]) + 1
         for i, st in enumerate(env["parsed"]):
             if ("rename", "object", "latent_variables_for_id", "latent_samples_for_id") in st:
                 known_k = i + 1
         ctx.obligation("translator:exact_upto-is-the-recorded-finding", "translator", env["exact_upto"] >= known_k,
                        "unstamped files are migrated exactly below revision %d (recorded finding: %d)" % (env["exact_upto"], known_k))
-        extra = sorted((set(env["gaps"]["orm"]) - KNOWN_MISSING_MIGRATED) | (set(env["gaps"]["artifact"]) - KNOWN_MISSING_ARTIFACT))
-        ctx.obligation("translator:orm-gaps-are-recorded-findings", "translator", not extra,
-                       "mapper columns not produced by the steps: %s" % (extra or env["gaps"]))
+        extra = sorted(set(env["gaps"]["orm"]) | set(env["gaps"]["artifact"]))
+        ctx.obligation("translator:no-mapper-column-without-step", "translator", not extra,
+                       "mapper columns that the PINNED historical schemas + all steps do not provide: %s" % (extra or "none"))
+        # append-only history: what released versions stamped files with must stay recognisable
+        pin = load_pin()
+        run_ids = [D.revision_id(env["raw"][:j]) for j in range(1, len(env["raw"]) + 1)]
+        ok_ids = run_ids[:len(pin["revision_ids"])] == pin["revision_ids"]
+        ok_txt = env["raw"][:len(pin["steps"])] == pin["steps"]
+        ctx.obligation("translator:released-revisions-are-a-prefix", "translator", ok_ids and ok_txt,
+                       "%d pinned revision ids / step texts (corpus/C19/pinned_history.json) %s a prefix of the %d current ones"
+                       % (len(pin["revision_ids"]), "are" if ok_ids and ok_txt else "are NOT", len(run_ids)))
     except TranslationError as e:
         ctx.obligation("translator:Gen.v", "translator", False, str(e)[:800])
     timing["translator"] = round(time.time() - t0, 1)
@@ -698,7 +770,7 @@ def run(ctx):
     raw = env["raw"]
     n = len(raw)
     env["latest"] = D.revision_id(raw)
-    has_art = bool(env.get("artifact"))
+    has_art = True   # the historical file is pinned in corpus/C19
     # 3. cases
     if ctx.replay:
         rp = json.load(open(ctx.replay))
@@ -709,7 +781,9 @@ def run(ctx):
         if os.path.isdir(cdir):
             for f in sorted(os.listdir(cdir)):
                 if f.endswith(".json"):
-                    cases.append(json.load(open(os.path.join(cdir, f)))["case"])
+                    doc = json.load(open(os.path.join(cdir, f)))
+                    if "case" in doc:
+                        cases.append(doc["case"])
         cases += gen_get_steps_cases(ctx, raw) + gen_history_cases(ctx, n, has_art) + gen_toy_cases(ctx)
     order = sorted(range(len(cases)), key=lambda i: (i % common.NCPU))
     chunks = chunk([cases[i] for i in order], common.NCPU)
@@ -722,7 +796,9 @@ def run(ctx):
         if "__error__" in o:
             ctx.obligation("impl-driver", "harness", False, o["__error__"][-800:])
             return
-        env.setdefault("expected_old", o["expected_old"])
+        env.setdefault("expected_old", {}).update(o["expected_old"])
+        if o.get("features_baseline"):
+            env.setdefault("features_baseline", o["features_baseline"])
         if o["meta"]["steps"] != raw:
             ctx.obligation("translator:runtime-steps", "translator", False, "steps at run time differ from the translated list")
         for r in o["results"]:
@@ -733,10 +809,12 @@ def run(ctx):
         ctx.count_case(c, nontrivial(c, n), kind_of(c))
         ctx.oracle["cases"] += 1
         if c["kind"] == "history":
-            ctx.hist("start", "fresh" if c["start"] == "fresh" else "%s k=%d %s" % (c["base"], c["k"], c["rev"].split(":")[0]))
+            ctx.hist("start", c["start"] if c["start"] != "file" else "%s k=%d %s" % (c["base"], c["k"], c["rev"].split(":")[0]))
             ctx.hist("sessions", len(c["sessions"]))
             ctx.hist("features", bool(c.get("features")))
             ctx.hist("relative_filename", bool(c.get("relpath")))
+            ctx.hist("url_branch", any(x["via"] == "url" for x in c["sessions"]))
+            ctx.hist("ops", " ".join(sorted(set(o_ for x in c["sessions"] for o_ in x["ops"]))) or "-")
         if "exc" in r:
             ctx.oracle["failures"] += 1
             ctx.failure("oracle", "driver raised %s: %s" % (r["exc"], r.get("msg")), c, impl=r)
@@ -744,7 +822,9 @@ def run(ctx):
         r = r["ok"]
         fails = []
         if c["kind"] == "history":
-            fails = oracle_history(c, r, env)
+            fails, notes = oracle_history(c, r, env)
+            for nt in notes:
+                ctx.hist("feature-failure-unrelated-to-migration", nt[:120])
         elif c["kind"] == "get_steps":
             m = oracle_get_steps(c, r, raw)
             fails = [(m, [])] if m else []
@@ -782,18 +862,20 @@ def run(ctx):
 
 MANIFEST = {
     "text": "Coq 8.16 theorems over a Gallina model of Migrator.get_steps / Revision.__sub__ / Migrator.migrate / SessionWrapper / "
-            "open_database and of the SQLite file + one connection (transactions, failing DDL = no-op), with the step list, ORM schema, "
-            "md5 table and code variant regenerated from /repo on every run: exactly the missing steps once and in order for every "
-            "stamped prefix (all step lists with distinct ids), idempotence and fixed point once stamped, every prefix (stamped or "
-            "unstamped) reaches the current schema (finite family, kernel-checked computation), rows / tables / columns never lost; "
-            "the full fixed-point statement is refuted for the pinned code (universally: no commit => never stamped; empty revision "
-            "table => never stamped) with the partial theorem under a first-session commit, and proved in full for the repaired "
-            "variant; plus vm_compute correspondence of the model with real SQLite files at every historical revision opened "
-            "through open_database / Aggregator.from_database and a direct property oracle incl. all storage features",
+            "open_database and of the SQLite file + one connection (transactions, failing DDL = no-op), instantiated at the code as it "
+            "is: step list, mappers, md5 table and code variant are regenerated from /repo on every run and checked against a PINNED "
+            "history (released step texts / revision ids, original schema, the repository's historical database). Proved: exactly the "
+            "missing steps once and in order (all step lists with distinct ids; every released revision id is recognised), the three "
+            "repairs are in the code, FULL fixed point after the first open for every file state and every user behaviour (commit, "
+            "write, rollback, nothing; new files included), idempotence once stamped, every prefix reaches the current schema, the "
+            "migrated schemas cover Base.metadata, no row / table / column lost; one refuted bound (unstamped files at or past the "
+            "rename step re-add a column) with its partial theorem; plus vm_compute correspondence with real SQLite files at every "
+            "historical revision and a direct property oracle incl. all storage features",
     "note": "Trusted: Coq kernel + vm_compute; the translator (AST of steps.py, fail-closed DDL parser, Base.metadata read at run time, "
-            "hashlib.md5 as a finite table, a syntactic reading of which repairs the code contains); the correspondence harness. "
-            "SQLite's evaluation of the three DDL forms, pysqlite's transaction control and SQLAlchemy's commit/close are modelled and "
-            "covered by correspondence only (history + toy cases). One connection at a time; sqlite files only (no URL databases). "
-            "Five genuine defects are recorded as known findings (two proposed fixes); the check passes unchanged on the repaired tree.",
-    "technique": "machine-checked proof in Coq (translator-regenerated step list / schema) + vm_compute correspondence",
+            "hashlib.md5 as a finite table, a syntactic reading of which repairs the code contains); the pinned history in corpus/C19; "
+            "the correspondence harness. SQLite's evaluation of the three DDL forms, pysqlite's transaction control and SQLAlchemy's "
+            "commit/rollback/close are modelled and covered by correspondence only (history + toy cases). Sessions are sequential (one "
+            "connection at a time); URL databases are exercised through sqlite:/// URLs only. One known finding remains "
+            "(unstamped-past-rename); four defects found by this check were repaired in /repo (8b3dae9, 48cc87a).",
+    "technique": "machine-checked proof in Coq (translator-regenerated step list / schema, pinned history) + vm_compute correspondence",
 }
